@@ -513,7 +513,8 @@ fn gen_runs(fam: &str, tier: &str, seed: u64, dir: &str) -> Value {
     let nruns = if tier == "thorough" { 240 } else { 36 };
     let (mut events, mut samples) = (0u64, vec![]);
     for r in 0..nruns {
-        let (nframes, maxp) = match r % 3 { 0 => (8, 6), 1 => (40, 40), _ => (if tier == "thorough" { 200 } else { 60 }, 300) };
+        // (every twelfth run: a few frames beyond 64 KiB, where buffers are regrown or released)
+        let (nframes, maxp) = if r % 12 == 11 { (3, 70_000) } else { match r % 3 { 0 => (8, 6), 1 => (40, 40), _ => (if tier == "thorough" { 200 } else { 60 }, 300) } };
         let evs = match fam {
             "c15" => crate::aread::run_random(seed.wrapping_mul(1000003).wrapping_add(r as u64), nframes, maxp),
             "c14r" => crate::bio::run_read_random(seed.wrapping_mul(1000003).wrapping_add(r as u64), nframes, maxp),
